@@ -268,8 +268,16 @@ class LoopParser(SubParser):
         code_gen.push(360)
         code_gen.if_end(marker)
         code_gen.push(LoopVar.COUNTER)
+        # With no iterations (a count of 0, or no lights to iterate over) the
+        # increment is never used; don't divide by zero computing it.
+        code_gen.test_op(Operator.EQ, LoopVar.COUNTER, 0)
+        zero_marker = code_gen.if_true_start()
+        code_gen.add_instruction(OpCode.POP, LoopVar.INCR)
+        code_gen.add_instruction(OpCode.POP, LoopVar.INCR)
+        code_gen.if_else(zero_marker)
         code_gen.add_instruction(OpCode.OP, Operator.DIV)
         code_gen.add_instruction(OpCode.POP, LoopVar.INCR)
+        code_gen.if_end(zero_marker)
         return True
 
     def _loop_test(self, code_gen) -> bool:
